@@ -36,7 +36,7 @@ def _dflt_expr(dflt):
 def model_tt_expr(case, expected=None):
     """res_list (get_target_times ...) ; with `expected` the comparison is done inside Coq and only
     (code, length, equal?, min relative gap) is printed."""
-    core = (f"(get_target_times float_arith float_floor {fl(float(case['dur']))} {fl(float(case['dt']))} "
+    core = (f"(get_target_times float_arith float_floor {fl(TOLU)} {fl(float(case['dur']))} {fl(float(case['dt']))} "
             f"{_obs_expr(case['obs'])} {_dflt_expr(case['dflt'])})")
     if expected is None:
         return f"res_list {core}"
